@@ -1,0 +1,9 @@
+//go:build verif
+
+package snow3g
+
+// VerifGate (verification hook H4) is called at the gate points of the SNOW 3G routines; a test
+// installs a scheduler here to replay goroutine schedules.  It is a no-op by default.
+var VerifGate = func(point string) {}
+
+func verifGate(point string) { VerifGate(point) }
